@@ -2063,9 +2063,66 @@ func ruleWriteBackBounds(r *Run, rule string) {
 						}
 					}
 					r.check(skipsNegative && !stopsOnNegative, rule, fmt.Sprintf("%s.%s:write-back-loop#%d", v.rel, declName(fd), n), body.Pos(), "the write-back of a line skips the bytes below address 0 (continue: %v) and does not stop at them (stop: %v)", skipsNegative, stopsOnNegative)
+					// the upper side: the loop is left (or the byte skipped) as soon as the byte's address is NOT BELOW the
+					// length of the image: `a >= len(image)` / `len(image) <= a` (strict forms store at index len)
+					upperOK, upperSeen := false, false
+					for _, st := range body.List {
+						is, ok := st.(*ast.IfStmt)
+						if !ok || !terminatesOrContinues(is.Body.List) {
+							continue
+						}
+						for _, c := range conjunctsOrDisjuncts(is.Cond) {
+							b, ok := c.(*ast.BinaryExpr)
+							if !ok {
+								continue
+							}
+							isLen := func(e ast.Expr) bool {
+								call, ok := ast.Unparen(e).(*ast.CallExpr)
+								if !ok || len(call.Args) != 1 {
+									return false
+								}
+								id, ok := call.Fun.(*ast.Ident)
+								return ok && id.Name == "len" && ctxFieldWritten(info, call.Args[0]) == "Memory"
+							}
+							if isLen(b.Y) {
+								upperSeen = true
+								if b.Op == token.GEQ {
+									upperOK = true
+								}
+							}
+							if isLen(b.X) {
+								upperSeen = true
+								if b.Op == token.LEQ {
+									upperOK = true
+								}
+							}
+						}
+					}
+					r.check(upperSeen && upperOK, rule, fmt.Sprintf("%s.%s:write-back-loop#%d:upper", v.rel, declName(fd), n), body.Pos(), "the write-back of a line leaves (or skips) at the first byte whose address is not below the length of the image (test seen: %v, non-strict: %v)", upperSeen, upperOK)
 					return true
 				})
 			}
 		}
 	}
+}
+
+func terminatesOrContinues(list []ast.Stmt) bool {
+	if terminates(list) {
+		return true
+	}
+	if len(list) > 0 {
+		if b, ok := list[len(list)-1].(*ast.BranchStmt); ok && (b.Tok == token.CONTINUE || b.Tok == token.BREAK) {
+			return true
+		}
+	}
+	return false
+}
+
+// conjunctsOrDisjuncts splits a condition on && and || (through parentheses).
+func conjunctsOrDisjuncts(e ast.Expr) []ast.Expr {
+	e = ast.Unparen(e)
+	if b, ok := e.(*ast.BinaryExpr); ok && (b.Op == token.LAND || b.Op == token.LOR) {
+		return append(conjunctsOrDisjuncts(b.X), conjunctsOrDisjuncts(b.Y)...)
+	}
+	return []ast.Expr{e}
 }
